@@ -213,7 +213,7 @@ func (env *evalEnv) eval(e Expr) cval {
 			es, et := env.elemOf(b.typ)
 			mem := env.heapGet("Mem."+sanitize(es), "(Array Int "+arrOf(es)+")")
 			arr := fx.winOf(es, fmt.Sprintf("(select %s (sptr %s))", mem, b.t), "(soff "+b.t+")")
-			return cval{t: "(select " + arr + " " + i.t + ")", sort: es, typ: et}
+			return cval{t: "(select " + arr + " " + i.t + ")", sort: fx.realSort(es), typ: et}
 		case b.sort == "Str":
 			return cval{t: "(strat " + b.t + " " + i.t + ")", sort: "Int", typ: types.Typ[types.Uint8]}
 		case strings.HasPrefix(b.sort, "(Array "):
@@ -317,7 +317,7 @@ func (env *evalEnv) elemOf(t types.Type) (string, types.Type) {
 		return "Int", nil
 	}
 	if s, ok := t.Underlying().(*types.Slice); ok {
-		return env.fx.sortOf(s.Elem()), s.Elem()
+		return env.fx.elemSort(s.Elem()), s.Elem()
 	}
 	evalFail("not a slice type: %s", t)
 	return "", nil
@@ -549,6 +549,29 @@ func (env *evalEnv) evalCall(x *ECall) cval {
 	case "old":
 		argn(1)
 		n := *env
+		n.inOld = true
+		return n.eval(x.Args[0])
+	case "isnew":
+		// isnew(x): the object x was allocated during this function's execution
+		argn(1)
+		v := env.eval(x.Args[0])
+		return cval{t: "(> " + v.t + " " + fx.entryAlloc + ")", sort: "Bool"}
+	case "allocated":
+		// allocated(x): x exists now (it is not an object that will be allocated later)
+		argn(1)
+		v := env.eval(x.Args[0])
+		if env.inOld {
+			return cval{t: "(<= " + v.t + " " + fx.entryAlloc + ")", sort: "Bool"}
+		}
+		return cval{t: "(<= " + v.t + " " + env.st.alloc + ")", sort: "Bool"}
+	case "atlock":
+		// atlock(e): e in the state right after the most recent Lock of a monitor
+		argn(1)
+		if env.st.lastLock == nil {
+			evalFail("atlock: no Lock on this path")
+		}
+		n := *env
+		n.old = env.st.lastLock
 		n.inOld = true
 		return n.eval(x.Args[0])
 	case "len":
